@@ -28,9 +28,21 @@ CHECK = {'level': 'exploration',
          'ApplyPenalty in steps / BanPeer): oracle = once the stored total reaches the threshold the IP is listed and NO connection to the peer remains (ConnsToPeer == 0 and not in '
          'ConnectedPeers within 3 s), re-dials from each of its sockets and the own dial of the node are refused while the ban is certain, accepted after it, request served, clean score, '
          'small penalty exact. Fixed scripts of both kinds run in every tier (TestRegressMultiConnPeers: 8, TestRegressRateLimitPerProcedure: 3). '
+         'CONCURRENT TRAFFIC AROUND RESET TICKS (about 1 scenario in 8; conc_test.go): node V applies the drawn limits (4-10 per procedure, penalties 10-100) with a '
+         'rate-limit interval of 300/500/800 ms; 6-8 nodes, each on its own IP; over 3-6 consecutive reset ticks 2-3 innocent peers send 50-100 % of every procedure limit in EVERY '
+         'counter window (early, spread over the window, late, or straddling the tick; one of them always more than half of every limit, early) while 1-3 offenders fill one procedure '
+         'to its limit and send the decisive message right before the estimated tick, so that rateLimit.checkLimit is penalising / banning / disconnecting with the counter lock held '
+         'when the tick fires: in "hold" ticks (1 in 2) that call is kept where it is ACROSS the tick through the logger handed to V (checkLimit logs "sent too many messages" with the '
+         'lock held; the hold ends when another procedure is seen reset, at the latest after interval/2), in "free" ticks (1 in 3) one or two offenders are only timed at the tick '
+         '(natural coincidence with the penalty/disconnect path, counted as an estimate). The counter windows are delimited WITHOUT reading the counters of the innocent peers: a tick '
+         'cannot come earlier than one interval after an instant at which a sentinel message of peer K was still counted before the previous reset; a window is over when the sentinel '
+         'counters of ALL procedures read zero (fallback, never needed on the unchanged tree: the tick has positively fired, no penalising checkLimit is in progress, >= 20 process '
+         'heartbeats / 100 ms passed); a message that overlaps such a zone is charged to BOTH windows and every window stays within the limit. Oracle: V never stores a score for the '
+         'IP of an innocent peer (sampled every 3 ms through the whole scenario), never lists it, stays connected to it, every one of its requests is answered. 3 fixed scripts in '
+         'every tier (TestRegressConcurrentResetTicks: 5 and 6 held ticks at 500 / 300 ms, 3 unheld bans at the tick). '
          'Non-trivial = (timed gater) an IP crossed the threshold by accumulation, was queried while certainly banned and again '
          'after the ban was seen over; (untimed gater) crossed by accumulation and queried while banned; (end-to-end) a ban caused by traffic with a '
-         'refused dial during the ban and an accepted one after it (multi-connection peer: banned while holding >= 2 connections, all closed), or a legal-only scenario that filled a rate window exactly or whose mix over the procedures exceeded a single limit; (concurrent) >= 2 '
+         'refused dial during the ban and an accepted one after it (multi-connection peer: banned while holding >= 2 connections, all closed), or a legal-only scenario that filled a rate window exactly or whose mix over the procedures exceeded a single limit, or (concurrent traffic around ticks) a reset tick that fell into a held or running penalty path of a procedure of which an innocent peer sent more than the limit over the two adjacent windows; (concurrent) >= 2 '
          'racing penalties reaching the threshold. Distinct by digest of the concrete operation list. '
          '(c) INVALID SYNC REQUESTS against the REAL sync handlers (TestSyncRequests, TestRegressSyncRequests): the penalising side is a real consensus '
          'node (harness/node: Executer + consensus/sync Syncer over an in-memory chain of 1-6 blocks, started p2p.Connection on which Executer.Init '
@@ -65,6 +77,8 @@ CHECK = {'level': 'exploration',
                  'an already open connection until their own next penalty is the engine\'s behaviour and is recorded, not asserted',
                  '"the limit": messages of ONE procedure received from one peer ID (requests and responses, over whichever connection) per counter window; every procedure has its own limit; all nodes use the same limits (mirror scenarios: only the penalising node)',
                  'Connection.ApplyPenalty/BanPeer apply the amount once per open connection of the peer (recorded, not judged): for a peer with n connections a rise by 1..n times the amount is accepted',
+                 'a goroutine may be delayed at any point: keeping rateLimit.checkLimit inside its logger.Debugf call (the counter lock is held there) for at most half a rate-limit interval is a schedule the statement quantifies over',
+                 'window over by elapsed time (fallback of the concurrent-tick scenarios, not needed on the unchanged tree): after a reset tick has positively fired, every counter has been reset once no penalising checkLimit is in progress and the process ran >= 20 heartbeats (>= 100 ms) since',
                  'an end-to-end scenario is reported only if it fails in 3 consecutive attempts without a process stall > 250 ms (else inconclusive)',
                  'a "ban should be over by now" verdict is final only if it persists over 600 further process heartbeats (>= 3 s)'],
  'quick': [{'pkg': 'c18', 'run': 'TestGaterUntimed|TestGaterConcurrent|TestRegress', 'checks': 3000, 'timeout': 600},
